@@ -27,8 +27,9 @@ import (
 //        -> the answers of st.series joined by ` | `
 //   cfg: l<0|1> lazy expanded postings, b<n> series batch size, s<n> index-header posting offsets sampling,
 //        c<0|1|2> no / roomy / tiny (evicting) in-memory index cache, g<n> partitioner max gap,
-//        m<n> estimated max series size (0 = default 64 KiB; 1 and 24 make lazy expansion kick in and series be
-//        re-fetched), k<n> estimated max chunk size (0 = default; 1 and 20 make chunks be re-fetched)
+//        m<n> estimated max series size (0 = default 64 KiB; 1 and values around real series sizes, 6-48, make lazy
+//        expansion kick in and series be re-fetched), k<n> estimated max chunk size (0 = default; 1 and 8-40 make
+//        chunks be re-fetched)
 //   part.gap <maxGap> <start:end,…>             the real gapBasedPartitioner -> parts `start:end:i:j,…`
 //
 // oracle (st.series / st.hist, store gateway only): the same blocks read with tsdb.OpenBlock + NewBlockChunkQuerier
@@ -316,7 +317,7 @@ func execC10(c *hlib.Ctx, tok []string) string {
 // genC10Cfg draws one of a dozen configurations per dataset (every configuration is a BucketStore instance).
 func genC10Cfg(r *hlib.Rand) string {
 	return fmt.Sprintf("bkt+l%d+b%d+s%d+c%d+g%d+m%d+k%d", r.Intn(2), pickInt(r, 1, 3, 10000), pickInt(r, 1, 3, 32), r.Intn(3), pickInt(r, 0, 16, 512*1024),
-		pickInt(r, 0, 1, 24, 512), pickInt(r, 0, 1, 20))
+		pickInt(r, 0, 1, r.Range(6, 48), r.Range(6, 48), 512), pickInt(r, 0, 1, r.Range(8, 40), r.Range(8, 40)))
 }
 
 func genC10(c *hlib.Ctx) {
@@ -361,7 +362,7 @@ func genC10(c *hlib.Ctx) {
 			cfgs = append(cfgs, genC10Cfg(r))
 		}
 		for k := 0; k < 3; k++ {
-			lazyCfgs = append(lazyCfgs, fmt.Sprintf("bkt+l1+b%d+s%d+c%d+g%d+m%d+k%d", pickInt(r, 1, 3, 10000), pickInt(r, 1, 3, 32), r.Intn(3), pickInt(r, 0, 16), pickInt(r, 1, 1, 24), pickInt(r, 0, 20)))
+			lazyCfgs = append(lazyCfgs, fmt.Sprintf("bkt+l1+b%d+s%d+c%d+g%d+m%d+k%d", pickInt(r, 1, 3, 10000), pickInt(r, 1, 3, 32), r.Intn(3), pickInt(r, 0, 16), pickInt(r, 1, 1, r.Range(6, 48)), pickInt(r, 0, r.Range(8, 40))))
 		}
 		for q := 0; q < nReq; q++ {
 			ms := g.genMatchers(blocks)
